@@ -16,6 +16,12 @@ type PropCheck struct {
 	ID   string
 	Pkgs []string // package patterns to load ("./ss2022")
 	Run  func(p *Prog, r *Report)
+	// Inline: analyse function bodies with statement-level calls to same-package helpers expanded
+	Inline bool
+	// AnchorsInlined: functions obtained by name are analysed with unexported helpers expanded;
+	// KeepCalls names the helpers that stay calls because rules anchor on them
+	AnchorsInlined bool
+	KeepCalls      []string
 }
 
 var props = map[string]*PropCheck{}
@@ -50,6 +56,7 @@ func main() {
 			usage()
 		}
 		p := Load(loadSyntax, nil, nil, "./"+fs.Arg(0))
+		p.Inline = os.Getenv("VERIF_INLINE") == "1"
 		recv := fs.Arg(1)
 		if recv == "-" {
 			recv = ""
@@ -134,6 +141,14 @@ func runCheck(id, tier string) int {
 	}
 	r := NewReport(id, tier)
 	p := Load(loadSyntax, nil, nil, pc.Pkgs...)
+	p.Inline = pc.Inline || os.Getenv("VERIF_INLINE") == "1"
+	p.AnchorsInlined = pc.AnchorsInlined || os.Getenv("VERIF_ANCHORS_INLINED") == "1"
+	if pc.KeepCalls != nil {
+		p.KeepCalls = map[string]bool{}
+		for _, k := range pc.KeepCalls {
+			p.KeepCalls[k] = true
+		}
+	}
 	r.Count("packages_loaded_with_syntax", len(p.All))
 	r.Count("function_bodies_in_loaded_packages", p.NFuncs)
 	pc.Run(p, r)
